@@ -1,5 +1,5 @@
 """C01 — decoders never hand back a wrong source symbol (Reed-Solomon codecs: contract composition; LDPC-Staircase: BOUNDED session contract)."""
-from checks import c02, c10, lbc
+from checks import c02, c10, lbc, c18
 
 INFO = {
     "level": "model_checking",
@@ -18,7 +18,18 @@ def jobs(tier, seed):
     js = c02.decode_jobs(tier, group="rs_decode_core") + c10.api_jobs(tier, fns=(1, 2, 3, 4), group_prefix="rs_api")
     ld = lbc.c03_jobs(tier, seed, prop="C01", prefix="c01ml", group_prefix="lbc_sound_finish") + lbc.c04_jobs(tier, seed, prop="C01", prefix="c01it", group_prefix="lbc_sound_stream")
     if tier == "quick":   # a slice here; the whole families run under C03 / C04
-        ld = [j for i, j in enumerate(ld) if ".k3r3." in j.name or i % 4 == 0]
+        ld = [j for i, j in enumerate(ld) if i % 5 == 0]
     else:
         ld = [j for i, j in enumerate(ld) if i % 3 == 0]
-    return js + ld
+    # ML decoding with symbol lengths that exercise the 8/4/2/1-operand and 64/32/8-bit splits of the multi-operand XOR kernels (many equations below a pivot)
+    rng = __import__("random").Random(seed + 7)
+    for key in (("k2r7", "k4r8x") if tier == "quick" else ("k2r7", "k4r8x", "k4r6", "k5r7", "k5r5")):
+        k, r = lbc.LDPC[key][0], lbc.LDPC[key][1]
+        n = k + r
+        for ln in ((7, 13) if tier == "quick" else (5, 6, 7, 13, 21)):
+            hist = [list(range(k, n)), list(range(n - 1, k - 1, -1))] + [sorted(rng.sample(range(n), n - k + 1)) for _ in range(2 if tier == "quick" else 6)]
+            for h in hist:
+                ld.append(lbc.job("c01len", "lbc_sound_finish_symbol_lengths", 3, key, h, api=0, finish=1, ln=ln, rnd=[rng.randrange(r) for _ in range(r)], prop="C01", timeout=400))
+    # the dense solver used by ML decoding, against exact bit-matrix algebra (C18's solver contract, re-run here: system sizes at the 32/64-column word boundaries)
+    sol = [j for j in c18.jobs(tier, seed) if j.name.startswith("solver.")]
+    return js + lbc.dedupe(ld) + sol
